@@ -68,6 +68,20 @@ impl CKBProtocolHandler for SyncProtocol {
         match message {
             packed::SyncMessageUnionReader::SendBlock(reader) => {
                 let new_block = reader.to_entity().block();
+                // Only the hash of the header is matched with the proved block hashes, so the
+                // body has to be checked with the commitments in the header.
+                if !is_body_committed_by_header(&new_block) {
+                    warn!(
+                        "SyncProtocol.received a block whose body isn't committed by its header from Peer({})",
+                        peer
+                    );
+                    nc.ban_peer(
+                        peer,
+                        BAD_MESSAGE_BAN_TIME,
+                        String::from("send us a block whose body isn't committed by its header"),
+                    );
+                    return;
+                }
                 let mut matched_blocks = self.peers.matched_blocks().write().expect("poisoned");
                 self.peers.add_block(&mut matched_blocks, new_block);
 
@@ -128,4 +142,28 @@ impl CKBProtocolHandler for SyncProtocol {
             }
         }
     }
+}
+
+// Checks if the transactions, the proposals, the uncles and the extension of a block are the ones
+// which are committed by its header.
+fn is_body_committed_by_header(block: &packed::Block) -> bool {
+    // The extra fields of a block are not verified as a part of the message.
+    match block.count_extra_fields() {
+        0 => {}
+        1 => {
+            let is_valid_extension = block
+                .extra_field(0)
+                .map(|data| packed::BytesReader::verify(&data, false).is_ok())
+                .unwrap_or(false);
+            if !is_valid_extension {
+                return false;
+            }
+        }
+        _ => return false,
+    }
+    // N.B. `into_view()` resets the commitments in the header.
+    let block = block.clone().into_view_without_reset_header();
+    block.transactions_root() == block.calc_transactions_root()
+        && block.proposals_hash() == block.calc_proposals_hash()
+        && block.extra_hash() == block.calc_extra_hash().extra_hash()
 }
